@@ -287,7 +287,7 @@ def _lock_bbs(e):
     return {x.bb for x in walk(e) if x.k == "call" and (x.q == MUTEX_LOCK or x.q in CONDVAR_TIMED or x.q in CONDVAR_UNTIMED)}
 
 
-def rule_r9(facts, col):
+def rule_r9(facts, col, rule_id="C03.R9"):
     """read-modify-write of the ring state happens under ONE lock acquisition"""
     for body in facts.bodies:
         if body.kind == "closure":
@@ -310,14 +310,14 @@ def rule_r9(facts, col):
                 if wl and not (rl & wl):
                     stale.append(show(x)[:60])
             if not wl:
-                col.silent("C03.R9", key, body.where(bb), "write not through a visible guard")
+                col.silent(rule_id, key, body.where(bb), "write not through a visible guard")
             elif stale:
-                col.bad("C03.R9", key, "%s:%d" % (st["sp"]["f"], st["sp"]["l"]),
+                col.bad(rule_id, key, "%s:%d" % (st["sp"]["f"], st["sp"]["l"]),
                         "BufferState.%s is written from a value that was read under a DIFFERENT lock acquisition (%s): a commit or "
                         "consume by the other thread between the two acquisitions is overwritten (lost update; windows then overlap "
                         "or committed samples vanish)" % (fld, stale[0]), {})
             else:
-                col.ok("C03.R9", key, body.where(bb), "state read and written under the same guard (%d state reads)" % nreads)
+                col.ok(rule_id, key, body.where(bb), "state read and written under the same guard (%d state reads)" % nreads)
 
 
 def run(ctx):
